@@ -1130,12 +1130,28 @@ func (p *Policy) validURL(rawurl string) (string, bool) {
 			}
 		}
 
+		// The URL is written back as net/url serialises it. That text has to
+		// be one this function would accept again: it must still parse
+		// (a host such as [::1%25a]é] does not) and must not end in white
+		// space that the next reader trims (http:\u00a0# loses its empty
+		// fragment and would then lose the no-break space)
+		accepted := func() (string, bool) {
+			s := u.String()
+			if strings.TrimSpace(s) != s {
+				return "", false
+			}
+			if _, err := url.Parse(s); err != nil {
+				return "", false
+			}
+			return s, true
+		}
+
 		if u.Scheme != "" {
 			urlPolicies, ok := p.allowURLSchemes[u.Scheme]
 			if !ok {
 				for _, r := range p.allowURLSchemeRegexps {
 					if r.MatchString(u.Scheme) {
-						return u.String(), true
+						return accepted()
 					}
 				}
 
@@ -1143,12 +1159,12 @@ func (p *Policy) validURL(rawurl string) (string, bool) {
 			}
 
 			if len(urlPolicies) == 0 {
-				return u.String(), true
+				return accepted()
 			}
 
 			for _, urlPolicy := range urlPolicies {
 				if urlPolicy(u) {
-					return u.String(), true
+					return accepted()
 				}
 			}
 
@@ -1156,8 +1172,8 @@ func (p *Policy) validURL(rawurl string) (string, bool) {
 		}
 
 		if p.allowRelativeURLs {
-			if u.String() != "" {
-				return u.String(), true
+			if s, ok := accepted(); ok && s != "" {
+				return s, true
 			}
 		}
 
